@@ -71,7 +71,9 @@ class World:
 
     def new_alloc(self, name: str) -> SimAllocator:
         self._n_workers_made += 1
-        a = SimAllocator(self.sim, name, base=0x10000 + 0x1000000 * self._n_workers_made)
+        # every process has the same virtual address range: ids seen in a worker may coincide with ids that
+        # were pickled into it from the parent (stale keys of a shipped cache)
+        a = SimAllocator(self.sim, name, base=0x10000)
         a.set_policy(*self.alloc_policy)
         a.hooks_on_assign = self.main_alloc.hooks_on_assign
         return a
